@@ -5,7 +5,8 @@ package main
 // text the Lean driver parses.
 //
 // Names.  Path elements are small integers in the protocol and fixed strings on disk:
-//   1 = "a", 2 = "b", 3 = "c", 4 = "d", 5 = "m", 6 = "n", 8 = "t.test", 9 = "u.test", 10 = "x", 11 = "y"
+//   1 = "a", 2 = "b", 3 = "c", 4 = "d", 5 = "m", 6 = "n", 7 = "n2", 8 = "t.test", 9 = "u.test", 10 = "x", 11 = "y"
+// ("n2" exists for the string-prefix sibling pair t.test/n vs t.test/n2 of the file-inclusion family)
 // (numeric order = string order, so the model can sort import paths the way the code sorts
 // their spellings); 0 = "strings" stands for a standard-library package.
 // A module path is base@vMAJOR; a version of it is a rank r >= 2 standing for
@@ -19,7 +20,7 @@ import (
 	"testing/fstest"
 )
 
-var c17Elems = []string{"strings", "a", "b", "c", "d", "m", "n", "-unused-", "t.test", "u.test", "x", "y"}
+var c17Elems = []string{"strings", "a", "b", "c", "d", "m", "n", "n2", "t.test", "u.test", "x", "y"}
 
 type c17Path []int
 
@@ -85,6 +86,9 @@ func (i c17Imp) Code() string {
 type c17Pkg struct {
 	Path    c17Path // full package path (module base is a prefix)
 	Imports []c17Imp
+	// Extra: further files of the package whose imports count only under the "which files
+	// count" rule (c17_fam.go); always empty in the universes the Lean model is asked about
+	Extra []c17Extra
 }
 
 type c17Dep struct {
@@ -148,7 +152,7 @@ func c17PkgsCode(ps []c17Pkg) string {
 		if len(is) > 0 {
 			imps = strings.Join(is, ",")
 		}
-		s[i] = p.Path.Code() + ">" + imps
+		s[i] = p.Path.Code() + ">" + imps + c17ExtraCode(p.Extra)
 	}
 	return strings.Join(s, ";")
 }
@@ -227,6 +231,7 @@ func c17PkgFiles(fs fstest.MapFS, root string, base c17Path, p c17Pkg, split boo
 	} else {
 		write(f1, p.Imports)
 	}
+	c17WriteExtra(fs, dir, name, p.Extra)
 }
 
 // registryFS renders the registry contents in the layout modregistrytest.Upload reads.
@@ -269,8 +274,9 @@ func (u *c17Universe) shuffled(r *Rng) *c17Universe {
 		Shuffle(r, n.Deps)
 		n.Pkgs = nil
 		for _, p := range m.Pkgs {
-			q := c17Pkg{Path: p.Path, Imports: append([]c17Imp(nil), p.Imports...)}
+			q := c17Pkg{Path: p.Path, Imports: append([]c17Imp(nil), p.Imports...), Extra: append([]c17Extra(nil), p.Extra...)}
 			Shuffle(r, q.Imports)
+			Shuffle(r, q.Extra)
 			n.Pkgs = append(n.Pkgs, q)
 		}
 		Shuffle(r, n.Pkgs)
